@@ -123,5 +123,3 @@ func solveAll(obls []*Obligation, dir string, timeout time.Duration, all bool) [
 	return results
 }
 
-func cmdCheck(args []string) int  { fmt.Println("not built yet"); return 2 }
-func cmdReplay(args []string) int { fmt.Println("not built yet"); return 2 }
